@@ -10,7 +10,7 @@ iv_timer_.list_expired, ...) and call *roles* computed from the call graph (a ca
 that may run user callbacks, may run task handlers, enters the kernel wait).  No
 static helper name, local variable name, loop shape or expression text is matched.
 """
-from ..core import AnalysisBroken, Inliner, canon, strip, lvalue_steps, norm_cond, forward
+from ..core import AnalysisBroken, Inliner, canon, strip, lvalue_steps, norm_cond, forward, last_member
 from ..analyses import is_fail, path_to, describe
 from .. import roles
 from . import h07
@@ -170,10 +170,17 @@ def run(ctx):
 
     ctx.rule('R-C07e', 'no busy wake-ups from rounding: the millisecond conversion of the remaining time rounds up (shared with C04 R-C04g)', floor=6)
     ctx.section(lambda c: __import__('ivy.rules.c04', fromlist=['x']).rounding(c, 'R-C07e'))
+    ctx.rule('R-C07f', 'blocks in the kernel only when nothing is due (1): the kernel wait gets the deadline iv_main computed, or none only '
+                       'while a kernel timer is armed for a deadline that is not later than the requested one (shared with C04 R-C04f)', floor=3)
+    ctx.section(lambda c: __import__('ivy.rules.c04', fromlist=['x']).keep_armed(c, 'R-C07f'))
+    ctx.rule('R-C07g', 'blocks in the kernel only when nothing is due (2): the deadline iv_main hands to the kernel wait is, on every '
+                       'path, zero when a task is pending and otherwise the deadline of the soonest timer, both established after '
+                       'the last call that may run callbacks; zero only when a task is pending', floor=4)
     covered = Coverage()
     ctx.section(balance, covered)
     ctx.section(auto_unregister, covered)
     ctx.section(check_main, prog, covered)
+    ctx.section(check_deadline, prog)
     ctx.section(try_rollback)
     ctx.section(writers, covered)
 
@@ -515,22 +522,17 @@ def try_rollback(ctx):
 MAIN_FACTS = h07.Facts({QUIT: (0, 1), NUMOBJS: (0, 1, 2, 5)})
 
 
-def check_main(ctx, prog, covered=None):
-    """Abstract execution of iv_main (file-local helpers inlined) over the facts quit ∈ {0, ≠0, ?} and
-    numobjs ∈ {0, ≠0, ?}, which are forgotten at every call that may run user callbacks or write them
-    (from the call graph), with disjunctive states so that any spelling of the exit test
-    (`a || b`, two breaks, a cached flag, a helper predicate, the loop condition) yields the same facts."""
+def _main_model(prog):
+    """(iv_main, iv_main with its file-local / static helpers inlined, {id(call event): roles}).  Roles of a call, from
+    the call graph (h07.Effects): 'dispatch' = may run a user callback or hook or store to quit / numobjs (so: may
+    register or unregister anything, since every registration is counted -- R-C07b), 'tasks' = runs task handlers,
+    'block' = reaches the poll method's `poll` slot (the kernel wait)."""
+    cached = prog.__dict__.get('_c07_main')
+    if cached is not None:
+        return cached
     f = prog.fn('iv_main')
     eff = h07.Effects(prog, watch=[QUIT, NUMOBJS])
     g = h07.inline(prog, f, stop=lambda t: not (t.static or t.file == f.file))
-    if covered is not None:
-        # only the address bookkeeping: a counter *store* in iv_main is not thereby a balanced one
-        cov = _counter_store_locs(g)
-        covered.seen |= cov.seen
-        for loc, v in cov.escapes.items():
-            covered.escapes.setdefault(loc, v)
-    facts = MAIN_FACTS
-
     cls = {}
     for e in g.events():
         if e['ev'] == 'call':
@@ -545,6 +547,23 @@ def check_main(ctx, prog, covered=None):
                 c.add('tasks')
             if c:
                 cls[id(e)] = c
+    prog.__dict__['_c07_main'] = (f, g, cls, eff)
+    return prog.__dict__['_c07_main']
+
+
+def check_main(ctx, prog, covered=None):
+    """Abstract execution of iv_main (file-local helpers inlined) over the facts quit ∈ {0, ≠0, ?} and
+    numobjs ∈ {0, ≠0, ?}, which are forgotten at every call that may run user callbacks or write them
+    (from the call graph), with disjunctive states so that any spelling of the exit test
+    (`a || b`, two breaks, a cached flag, a helper predicate, the loop condition) yields the same facts."""
+    f, g, cls, _eff = _main_model(prog)
+    if covered is not None:
+        # only the address bookkeeping: a counter *store* in iv_main is not thereby a balanced one
+        cov = _counter_store_locs(g)
+        covered.seen |= cov.seen
+        for loc, v in cov.escapes.items():
+            covered.escapes.setdefault(loc, v)
+    facts = MAIN_FACTS
     blocks = [e for e in g.events() if 'block' in cls.get(id(e), ())]
     if not blocks:
         raise AnalysisBroken('iv_main: no call that enters the poll method\'s kernel wait')
@@ -676,3 +695,331 @@ def check_main(ctx, prog, covered=None):
         ok = not any(val(st, QUIT) == 'nz' or val(st, NUMOBJS) == 'z' for st in sts)
         ctx.ob('R-C07c', 'iv_main:no-dispatch-after-exit-condition', ok, loc=loc,
                detail='%s is never reached on a path that observed quit != 0 or numobjs == 0 since the last dispatch' % describe(evs[0]), fn=f.q)
+
+
+# --------------------------------------------------------------------------
+# R-C07g
+# --------------------------------------------------------------------------
+
+TASKS = ('iv_state', 'tasks')
+PENDING = ('pending', 'task')
+TS_FIELDS = ('tv_sec', 'tv_nsec')
+NUM_TIMERS = ('iv_state', 'num_timers')
+EXPIRES = (('iv_timer_', 'expires'), ('iv_timer', 'expires'))
+
+
+def _zero_init(x):
+    """is x an initialiser list of a time value all of whose listed fields are the constant 0 (the others are 0 in C)?"""
+    x = h07.strip_cast(x)
+    while isinstance(x, dict) and x.get('k') == 'compound' and 'e' in x:
+        x = h07.strip_cast(x['e'])
+    if not (isinstance(x, dict) and x.get('k') == 'init'):
+        return False
+    fl = x.get('fields')
+    vals = list(fl.values()) if isinstance(fl, dict) else x.get('elems', x.get('items'))
+    return vals is not None and all(h07.int_of(v) == 0 for v in vals)
+
+
+def _is_timer_deadline_fn(prog, t, eff):
+    """Role `the deadline of the soonest timer`: a function that returns a pointer to a time value, runs no user code,
+    does not wait, and (helpers inlined) hands out the address of a timer's expiry (or NULL: no timer)."""
+    if t is None or not t.blocks or 'timespec' not in (t.ret or '') or '*' not in (t.ret or ''):
+        return False
+    cache = prog.__dict__.setdefault('_c07_soonest', {})
+    if t.q not in cache:
+        tags = eff.of_func(t)
+        ok = not any(x[0] in ('cb', 'block') for x in tags)
+        if ok:
+            gi = h07.inline(prog, t, expand_methods=False)
+            ok = any(x.get('k') == 'addr' and last_member(x.get('e')) in EXPIRES for e in gi.events() for x in h07.walk(e))
+        cache[t.q] = ok
+    return cache[t.q]
+
+
+def check_deadline(ctx, prog):
+    """`blocks in the kernel only when nothing is due`, as far as iv_main decides it: what is due inside the loop are the
+    registered tasks (all of them) and the timers whose expiry has passed.  Abstract execution of iv_main (same graph and
+    call roles as R-C07c) with disjunctive states over
+      * the fact `a task is pending` (emptiness of iv_state.tasks, however it is tested: helper predicate, cached in a
+        local, `== 0`, conditional expression), forgotten at every call that may run user code or register anything;
+      * what every pointer local holds: the address of a time value of iv_main's own whose fields were all last stored 0 on
+        this path (or an immutable all-zero one), the result of the timer-deadline function (role, see
+        _is_timer_deadline_fn) obtained after the last such call (`soon`) or before it (`stale`), NULL, or anything else.
+      * the fact `a timer is registered` (iv_state.num_timers), forgotten likewise: NULL handed to the wait on a path that
+        found no timer registered is what the timer-deadline function answers for an empty heap.
+    At every call that enters the kernel wait the deadline argument (the time-value pointer parameter of the callee) is
+    judged in every state: zero time value / soonest-timer deadline (never NULL with a timer possibly registered, never
+    anything else); fresh; not zero => no task pending; zero => a task pending."""
+    f, g, cls, eff = _main_model(prog)
+    facts = h07.LoopFacts({NUM_TIMERS: (0, 1, 2, 5)}, {TASKS: PENDING})
+    facts.prog = prog
+    blocks = [e for e in g.events() if 'block' in cls.get(id(e), ())]
+    if not blocks:
+        raise AnalysisBroken('iv_main: no call that enters the poll method\'s kernel wait')
+
+    def target(e_or_x, owner):
+        u = prog.unit_of(owner) if owner is not None else None
+        n = e_or_x.get('callee')
+        return (prog.resolve(u, n) if u else prog.funcs.get(n)) if n else None
+
+    def is_local(v):
+        return isinstance(v, dict) and v.get('k') == 'var' and v.get('vk') in ('local', 'param')
+
+    def is_time_obj(v):
+        return isinstance(v, dict) and v.get('k') == 'var' and v.get('record') == 'timespec' and not v.get('ptr')
+
+    def pv(x, env, owner):
+        """abstract value of a pointer expression: 'zero:<local>', 'czero', 'soon', 'stale', 'null' or None (anything else)"""
+        x = h07.strip_cast(facts.expand(x, env))
+        if not isinstance(x, dict):
+            return None
+        k = x.get('k')
+        if k == 'null' or h07.int_of(x) == 0:
+            return 'null'
+        if k == 'var':
+            return env.get(('ptr', x['name']))
+        if k == 'addr':
+            v = h07.strip_cast(x['e']) if isinstance(x.get('e'), dict) and x['e'].get('k') != 'load' else x.get('e')
+            if is_time_obj(v):
+                if v.get('vk') == 'local':
+                    return 'zero:' + v['name']
+                if v.get('vk') in ('global', 'staticlocal') and 'const' in (v.get('type') or '').split():
+                    gl = [d for q, d in prog.globals.items() if d.get('name') == v['name'] and not d.get('extern_decl')
+                          and (q == v['name'] or q.endswith(':' + v['name']))]
+                    if len(gl) == 1 and ('init' not in gl[0] or _zero_init(gl[0]['init'])):
+                        return 'czero'
+                return None
+            if last_member(x.get('e')) in EXPIRES:
+                return 'soon'
+            return None
+        if k == 'call' and 'callee' in x:
+            return 'soon' if _is_timer_deadline_fn(prog, target(x, owner), eff) else None
+        if k == 'cond':
+            c = h07.truth(facts, env, x['c'])
+            if c == 'nz':
+                return pv(x['a'], env, owner)
+            if c == 'z':
+                return pv(x['b'], env, owner)
+            a, b = pv(x['a'], env, owner), pv(x['b'], env, owner)
+            return a if a == b else None
+        return None
+
+    def forget(env, n):
+        for k_ in [k_ for k_ in env if (k_[0] in ('ptr', 'var', 'val', 'alias', 'lst') and k_[1] == n) or (k_[0] == 'ts' and k_[1] == n)
+                   or (k_[0] == 'alias' and h07.alias_mentions(env[k_], n))]:
+            env.pop(k_)
+
+    def time_obj_of(l, env):
+        """(name of the local time value, field | None) that the lvalue l is (a field of), directly or through a pointer
+        local that holds its address; None when l is something else"""
+        l = h07.strip_cast(l) if isinstance(l, dict) and l.get('k') in ('cast', 'paren') else l
+        if not isinstance(l, dict):
+            return None
+        if is_time_obj(l) and l.get('vk') == 'local':
+            return (l['name'], None)
+        if l.get('k') == 'deref':
+            p = h07.strip_cast(l.get('e'))
+            v = env.get(('ptr', p['name'])) if isinstance(p, dict) and p.get('k') == 'var' else None
+            return (v[5:], None) if isinstance(v, str) and v.startswith('zero:') else None
+        if l.get('k') == 'member':
+            b = l.get('base')
+            if l.get('arrow'):
+                p = h07.strip_cast(b)
+                v = env.get(('ptr', p['name'])) if isinstance(p, dict) and p.get('k') == 'var' else None
+                return (v[5:], l['field']) if isinstance(v, str) and v.startswith('zero:') else None
+            o = time_obj_of(b, env)
+            return (o[0], l['field']) if o is not None and o[1] is None else None
+        return None
+
+    def assign(env, name, rhs, owner):
+        """env after `name = rhs` (rhs not a conditional expression)"""
+        v = h07.truth(facts, env, rhs)
+        av = h07.alias_value(facts, rhs)
+        iv = h07.value(facts, env, rhs)
+        p = pv(rhs, env, owner)
+        src = h07.strip_cast(facts.expand(rhs, env))
+        if av is None and is_local(src) and ('alias', src['name']) in env:
+            av = env[('alias', src['name'])]            # a copy of a local that stands for an expression
+        hk = facts.head_key(facts.expand(rhs, env), env)
+        if v == '?' and p is not None and p not in ('soon', 'stale'):
+            v = 'z' if p == 'null' else 'nz'            # NULL / the address of an object: decides a later `ptr == NULL`
+        forget(env, name)
+        if p is not None:
+            env[('ptr', name)] = p
+        if hk is not None:
+            env[('lst', name)] = hk                     # the local holds the address of the task list's head
+        if iv is not None:
+            env[('val', name)] = iv
+        if v != '?':
+            env[('var', name)] = v
+        elif av is not None and not h07.alias_mentions(av, name):
+            env[('alias', name)] = av
+        return env
+
+    def tr_one(e, env):
+        ev = e['ev']
+        owner = h07.origin(prog, g, e)
+        if ev == 'enter':
+            if e.get('inst') is not None:
+                env[('inl', e['loc'])] = e['inst']
+        elif ev == 'decl':
+            forget(env, e['name'])
+            if e.get('record') == 'timespec' and not e.get('ptr') and e.get('init') is not None and _zero_init(e['init']):
+                for fl in TS_FIELDS:
+                    env[('ts', e['name'], fl)] = 'z'
+        elif ev == 'store':
+            l = e['lhs']
+            ls = h07.strip_cast(l) if isinstance(l, dict) and l.get('k') in ('cast', 'paren') else l
+            plain = e.get('op') == '=' and 'rhs' in e
+            if is_local(ls) and not is_time_obj(ls):
+                if not plain:
+                    forget(env, ls['name'])
+                    return [env]
+                r = strip(e['rhs'])
+                if isinstance(r, dict) and r.get('k') == 'cond' and h07.truth(facts, env, r['c']) == '?':
+                    out = []
+                    for pol, br in ((True, r['a']), (False, r['b'])):
+                        for e1 in h07.assume(facts, dict(env), r['c'], pol):
+                            out.append(assign(e1, ls['name'], br, owner))
+                    return out
+                assign(env, ls['name'], e['rhs'], owner)
+                return [env]
+            o = time_obj_of(ls, env)
+            if o is not None:
+                n, fl = o
+                if fl is None:
+                    for k_ in [k_ for k_ in env if k_[0] == 'ts' and k_[1] == n]:
+                        env.pop(k_)
+                    if plain and _zero_init(e['rhs']):
+                        for fl_ in TS_FIELDS:
+                            env[('ts', n, fl_)] = 'z'
+                    elif plain:
+                        # a copy of another time value of iv_main's own
+                        src = h07.strip_cast(e['rhs'])
+                        if isinstance(src, dict) and src.get('k') == 'deref':
+                            src = {'k': 'deref', 'e': src['e']}
+                        so = time_obj_of(src, env) if isinstance(src, dict) else None
+                        if so is not None and so[1] is None and so[0] != n:
+                            for fl_ in TS_FIELDS:
+                                if env.get(('ts', so[0], fl_)) == 'z':
+                                    env[('ts', n, fl_)] = 'z'
+                        elif pv({'k': 'addr', 'e': src}, env, owner) == 'czero':
+                            for fl_ in TS_FIELDS:
+                                env[('ts', n, fl_)] = 'z'
+                else:
+                    env.pop(('ts', n, fl), None)
+                    if const_store(e) == 0:
+                        env[('ts', n, fl)] = 'z'
+        elif ev == 'call':
+            c = cls.get(id(e), ())
+            args = e.get('args', [])
+            zeroing = e.get('callee') in ('memset', '__builtin_memset') and len(args) == 3 and h07.int_of(args[1]) == 0
+            for i, a in enumerate(args):
+                a = h07.strip_cast(a)
+                if isinstance(a, dict) and a.get('k') == 'addr' and isinstance(h07.strip_cast(a['e']), dict) \
+                        and h07.strip_cast(a['e']).get('k') == 'var' and a['e'].get('k') != 'load':
+                    v = h07.strip_cast(a['e'])
+                    forget(env, v['name'])
+                    if zeroing and i == 0 and is_time_obj(v) and h07.int_of(args[2]) is not None and h07.int_of(args[2]) >= 16:
+                        for fl in TS_FIELDS:
+                            env[('ts', v['name'], fl)] = 'z'
+                elif 'block' not in c:
+                    # a pointer to a time value of iv_main's own handed to other code: it may be written through it
+                    p = pv(a, env, owner)
+                    if isinstance(p, str) and p.startswith('zero:'):
+                        t = target(e, owner)
+                        par = t.params[i] if t is not None and i < len(t.params) else None
+                        if zeroing and i == 0:
+                            for fl in TS_FIELDS:
+                                env[('ts', p[5:], fl)] = 'z'
+                        elif par is None or 'const' not in (par.get('type') or '').split('*')[0].split():
+                            for k_ in [k_ for k_ in env if k_[0] == 'ts' and k_[1] == p[5:]]:
+                                env.pop(k_)
+            if 'dispatch' in c:
+                for k_ in [k_ for k_ in env if k_ in (PENDING, NUM_TIMERS) or k_[0] == 'alias']:
+                    env.pop(k_)
+                for k_ in [k_ for k_ in env if k_[0] == 'ptr' and env[k_] == 'soon']:
+                    env[k_] = 'stale'
+                # (a local that cached the pending test keeps its value, but a later test of it no longer establishes the fact)
+        return [env]
+
+    def tr(e, S):
+        out = set()
+        for fk in S:
+            for env in tr_one(e, dict(fk)):
+                out.add(tuple(sorted(env.items())))
+        return frozenset(out)
+
+    def edge(blk, si, S):
+        if blk.term and blk.term.get('cls') == 'SwitchStmt' and blk.term.get('cases') and blk.term.get('cond') is not None:
+            out = set()
+            for fk in S:
+                for env in h07.switch_edge(facts, dict(fk), blk.term, si):
+                    out.add(tuple(sorted(env.items())))
+            return frozenset(out) if out else None
+        if not blk.term or len(blk.succ) != 2 or blk.term.get('cond') is None \
+                or blk.term.get('cls') in ('SwitchStmt', 'MethodDispatch'):
+            return S
+        out = set()
+        for fk in S:
+            for env in h07.assume(facts, dict(fk), blk.term['cond'], si == 0):
+                out.add(tuple(sorted(env.items())))
+        return frozenset(out) if out else None
+
+    _, ev_in = forward(g, frozenset([()]), tr, lambda a, b: a | b, edge=edge)
+
+    def deadline_index(e, owner):
+        ts = [target(e, owner)] if 'callee' in e else []
+        if 'fnexpr' in e:
+            sk = h07.site_kind(g, e)
+            ts = list(prog.slot_targets(sk[1])) if sk and sk[0] == 'method' else []
+        idx = set()
+        for t in ts:
+            if t is not None:
+                idx.add(tuple(i for i, p_ in enumerate(t.params) if p_.get('ptr') and p_.get('record') == 'timespec'))
+        if len(idx) != 1 or len(next(iter(idx))) != 1 or next(iter(idx))[0] >= len(e.get('args', [])):
+            raise AnalysisBroken('iv_main: the deadline argument of %s (its one time-value pointer parameter) is not identified' % describe(e))
+        return next(iter(idx))[0]
+
+    def show(v):
+        return {None: 'not a deadline iv_main computed (unknown value)', 'null': 'NULL (wait for ever) although a timer may be registered', 'czero': 'zero',
+                'soon': 'soonest timer', 'stale': 'soonest timer, computed before the last dispatch'}.get(v, 'local time value')
+
+    for loc, evs in sorted(roles.by_loc(blocks).items()):
+        rows = []           # (value, is zero, pending fact)
+        for e in evs:
+            owner = h07.origin(prog, g, e)
+            arg = e['args'][deadline_index(e, owner)]
+            for fk in ev_in.get((e['_b'], e['_i']), frozenset()):
+                env = dict(fk)
+                v = pv(arg, env, owner)
+                if v == 'null' and env.get(NUM_TIMERS) == 'z':
+                    v = 'soon'          # no deadline with no timer registered (found so after the last dispatch) is what the
+                                        # timer-deadline function answers for an empty heap
+                zero = v == 'czero' or (isinstance(v, str) and v.startswith('zero:')
+                                        and all(env.get(('ts', v[5:], fl)) == 'z' for fl in TS_FIELDS))
+                if isinstance(v, str) and v.startswith('zero:') and not zero:
+                    unset = [fl for fl in TS_FIELDS if env.get(('ts', v[5:], fl)) != 'z']
+                    rows.append(('local time value `%s` whose %s is not 0 on this path' % (v[5:], '/'.join(unset)), False, env.get(PENDING, '?'), v))
+                else:
+                    rows.append((show(v), zero, env.get(PENDING, '?'), v))
+        if not rows:
+            raise AnalysisBroken('iv_main: the kernel wait %s is not reachable' % describe(evs[0]))
+        what = describe(evs[0])
+        bad = sorted({r[0] for r in rows if not (r[1] or r[3] in ('soon', 'stale'))})
+        ctx.ob('R-C07g', 'iv_main:deadline-is-zero-or-soonest-timer', not bad, loc=loc,
+               detail='on every path the deadline handed to %s is a zero time value or the deadline of the soonest timer'
+                      % what + ('; found: ' + '; '.join(bad) if bad else ''), fn=f.q)
+        bad = [r for r in rows if r[3] == 'stale']
+        ctx.ob('R-C07g', 'iv_main:deadline-fresh', not bad, loc=loc,
+               detail='the soonest-timer deadline handed to %s was obtained after the last call that may run callbacks '
+                      '(which may register a sooner timer)' % what, fn=f.q)
+        bad = [r for r in rows if not r[1] and r[2] != 'z']
+        ctx.ob('R-C07g', 'iv_main:blocks-only-without-pending-task', not bad, loc=loc,
+               detail='%s gets a deadline other than zero only on paths that found no task pending after the last call that may '
+                      'run callbacks' % what + ('; found with the pending test %s: %s'
+                                               % ({'nz': 'true', '?': 'not made'}.get(bad[0][2], bad[0][2]), bad[0][0]) if bad else ''), fn=f.q)
+        bad = [r for r in rows if r[1] and r[2] != 'nz']
+        ctx.ob('R-C07g', 'iv_main:zero-deadline-only-with-pending-task', not bad, loc=loc,
+               detail='%s gets the zero deadline (poll without waiting) only on paths that found a task pending: otherwise every '
+                      'iteration polls again without anything to dispatch' % what, fn=f.q)
